@@ -61,10 +61,11 @@ Proof.
   generalize (Zceil_ub x) (Zceil_lb x). change (IZR 1) with 1. lra.
 Qed.
 
-Theorem fo_ctor_wf_R ratio maxrel d chunk nch s :
+(** the constructed state satisfies the invariant, and its buffer has room for every ratio the setter accepts *)
+Theorem fo_ctor_wfe_R ratio maxrel d chunk nch s :
   (1 <= chunk)%Z -> (0 <= nch)%Z ->
   @fast_out_new CR SR ratio maxrel d chunk nch = inr (RFastOut d s) ->
-  exists blen, fo_wf blen s /\ ratio = oratio s.
+  exists blen, fo_wfe blen s /\ ratio = oratio s.
 Proof.
   intros Hc Hn. unfold fast_out_new.
   destruct (validate_ratios_fast ratio maxrel) eqn:E; [discriminate|].
@@ -89,6 +90,25 @@ Proof.
     assert (Hy : IZR N0 <= (maxrel + 1 / 1) * IZR N0) by (replace (1 / 1) with 1 by field; nra).
     rewrite Ztrunc_floor by lra.
     assert (N0 <= Zfloor ((maxrel + 1 / 1) * IZR N0))%Z by (apply Zfloor_lub; exact Hy). lia. }
+  assert (HBcap : forall r2, ratio / maxrel <= r2 -> 0 < r2 /\ (Zceil (IZR chunk * / r2) + 4 + 16 <= B)%Z).
+  { intros r2 H2. assert (Hq : 0 < ratio / maxrel) by (apply Rdiv_lt_0_compat; lra).
+    assert (Hr2 : 0 < r2) by lra. split; [exact Hr2|].
+    assert (Hinv : / r2 <= maxrel * / ratio).
+    { replace (maxrel * / ratio) with (/ (ratio / maxrel)) by (field; lra). apply Rinv_le_contravar; assumption. }
+    assert (Hx2 : IZR chunk * / r2 <= maxrel * (IZR chunk * / ratio)) by nra.
+    assert (Hn0 : IZR chunk * / ratio <= IZR N0 - 4).
+    { rewrite HN0, plus_IZR. change (IZR 4) with 4. generalize (Zceil_ub (IZR chunk * / ratio)). lra. }
+    assert (Hn5 : 5 <= IZR N0).
+    { rewrite HN0, plus_IZR. change (IZR 4) with 4. assert (1 <= IZR (Zceil (IZR chunk * / ratio))); [|lra].
+      apply IZR_le. assert (0 < Zceil (IZR chunk * / ratio))%Z; [|lia]. apply lt_IZR.
+      generalize (Zceil_ub (IZR chunk * / ratio)). change (IZR 0) with 0. lra. }
+    rewrite EB. unfold fo_new_buffer_channel_length, POLYNOMIAL_LEN_U. cbv [c_to_usize cmul cadd c_of_Z c_lit CR cnum].
+    replace (1 / 1) with 1 by field.
+    assert (Hbig : IZR chunk * / r2 + 9 <= (maxrel + 1) * IZR N0) by nra.
+    rewrite Ztrunc_floor by nra. rewrite Z.max_r by (apply Zfloor_lub; change (IZR 0) with 0; nra).
+    assert (Hcc : (Zceil (IZR chunk * / r2) + 8 <= Zfloor ((maxrel + 1) * IZR N0))%Z).
+    { apply Zfloor_lub. rewrite plus_IZR. change (IZR 8) with 8. generalize (Zceil_lb (IZR chunk * / r2)). lra. }
+    change (2 * 8)%Z with 16%Z. lia. }
   clear EN0 EB.
   cbv [set_FastFixedOut_max_relative_ratio set_FastFixedOut_target_ratio
       set_FastFixedOut_resample_ratio_original set_FastFixedOut_resample_ratio set_FastFixedOut_last_index
@@ -97,22 +117,36 @@ Proof.
       FastFixedOut_last_index FastFixedOut_resample_ratio FastFixedOut_chunk_size FastFixedOut_nbr_channels
       FastFixedOut_target_ratio FastFixedOut_needed_input_size FastFixedOut_current_buffer_fill
       FastFixedOut_resample_ratio_original FastFixedOut_max_relative_ratio].
-  constructor; unfold oC, onch, oratio, oli, oneeded, ofill; cbn [as_ctl as_buf as_mask];
-    cbn [FastFixedOut_last_index FastFixedOut_resample_ratio FastFixedOut_chunk_size FastFixedOut_nbr_channels
-         FastFixedOut_target_ratio FastFixedOut_needed_input_size FastFixedOut_current_buffer_fill].
-  - exact Hc.
-  - exact Hn.
-  - unfold chans. rewrite repeat_length. reflexivity.
-  - unfold chans. rewrite repeat_length. reflexivity.
-  - unfold chans.
-    replace B with (zlen (@zeros CR SR B)) at 1 by (rewrite zlen_zeros; lia).
-    exact (@all_len_repeat CR SR (@zeros CR SR B) (Z.to_nat nch)).
-  - exact Hr.
-  - reflexivity.
-  - unfold fo_new_last_index, POLYNOMIAL_LEN_I. cbv [c_of_Z CR cnum]. change (IZR (- (8 ÷ 2))) with (-4). lra.
-  - unfold fo_new_last_index, POLYNOMIAL_LEN_I. cbv [c_of_Z CR cnum]. change (IZR (- (8 ÷ 2))) with (-4).
-    replace (-4 + IZR chunk * / ratio + 8) with (IZR chunk * / ratio + IZR 4) by (change (IZR 4) with 4; ring).
-    rewrite Zceil_plus_Z. exact HN0.
-  - lia.
-  - lia.
+  constructor.
+  { constructor; unfold oC, onch, oratio, oli, oneeded, ofill; cbn [as_ctl as_buf as_mask];
+      cbn [FastFixedOut_last_index FastFixedOut_resample_ratio FastFixedOut_chunk_size FastFixedOut_nbr_channels
+           FastFixedOut_target_ratio FastFixedOut_needed_input_size FastFixedOut_current_buffer_fill].
+    - exact Hc.
+    - exact Hn.
+    - unfold chans. rewrite repeat_length. reflexivity.
+    - unfold chans. rewrite repeat_length. reflexivity.
+    - unfold chans.
+      replace B with (zlen (@zeros CR SR B)) at 1 by (rewrite zlen_zeros; lia).
+      exact (@all_len_repeat CR SR (@zeros CR SR B) (Z.to_nat nch)).
+    - exact Hr.
+    - reflexivity.
+    - unfold fo_new_last_index, POLYNOMIAL_LEN_I. cbv [c_of_Z CR cnum]. change (IZR (- (8 ÷ 2))) with (-4). lra.
+    - unfold fo_new_last_index, POLYNOMIAL_LEN_I. cbv [c_of_Z CR cnum]. change (IZR (- (8 ÷ 2))) with (-4).
+      replace (-4 + IZR chunk * / ratio + 8) with (IZR chunk * / ratio + IZR 4) by (change (IZR 4) with 4; ring).
+      rewrite Zceil_plus_Z. exact HN0.
+    - lia.
+    - lia. }
+  intros r2 Ha. cbn [as_ctl] in Ha. unfold fo_set_ratio_accept in Ha.
+  cbn [FastFixedOut_resample_ratio_original FastFixedOut_max_relative_ratio] in Ha. cbv [cleb cdiv cmul CR cnum] in Ha.
+  apply andb_true_iff in Ha. destruct Ha as [Ha _]. revert Ha. case Rle_bool_spec; [|discriminate]. intros Ha _.
+  unfold oC. cbn [as_ctl FastFixedOut_chunk_size]. apply HBcap. exact Ha.
+Qed.
+
+Corollary fo_ctor_wf_R ratio maxrel d chunk nch s :
+  (1 <= chunk)%Z -> (0 <= nch)%Z ->
+  @fast_out_new CR SR ratio maxrel d chunk nch = inr (RFastOut d s) ->
+  exists blen, fo_wf blen s /\ ratio = oratio s.
+Proof.
+  intros Hc Hn H. destruct (fo_ctor_wfe_R ratio maxrel d chunk nch s Hc Hn H) as (blen & [W _] & E).
+  exists blen. split; assumption.
 Qed.
